@@ -83,3 +83,36 @@ Qed.
 (* the slice-backed window: fill_buf is always "end of data", nothing changes *)
 Theorem fill_slice d r : bw_fill_buf (bw_from_slice d) r = FillOk 0 (bw_from_slice d) r.
 Proof. unfold bw_fill_buf, bw_from_slice. cbn [cap win]. reflexivity. Qed.
+
+(* ---------- faults (C20) ---------- *)
+Theorem failed_fill_keeps_stream input b r b' r' :
+  stream_inv input b r -> bw_fill_buf b r = FillIo b' r' ->
+  stream_inv input b' r' /\ win b' = win b /\ rest r' = rest r.
+Proof.
+  intros Hinv Hf. pose proof (fill_buf_preserves input b r Hinv) as H. rewrite Hf in H.
+  destruct H as [H1 H2]. split; [exact H1|]. split; [exact H2|].
+  unfold bw_fill_buf in Hf.
+  destruct (Nat.leb (cap b) (length (win b))); [destruct (Nat.eqb (cap b) 0); discriminate|].
+  destruct (rd_read r (cap b - length (win b))) as [[bs r2]| | | |]; inversion Hf; reflexivity.
+Qed.
+
+(* position never exceeds what the Read delivered: position + window = delivered *)
+Definition fill_inv (b : bufwin) (r : rd) : Prop := bw_position b + length (win b) = delivered r.
+
+Theorem fill_inv_preserved b r :
+  fill_inv b r ->
+  match bw_fill_buf b r with
+  | FillOk _ b' r' | FillIo b' r' | FillFull b' r' => fill_inv b' r'
+  end.
+Proof.
+  unfold fill_inv, bw_fill_buf, bw_position. intros H.
+  destruct (Nat.leb (cap b) (length (win b))).
+  - destruct (Nat.eqb (cap b) 0); exact H.
+  - destruct (rd_read r (cap b - length (win b))) as [[bs r2]| | | |] eqn:Hrd;
+      cbn [prior consumed win delivered rd_after_fail]; try lia.
+    unfold rd_read in Hrd. destruct (match sched r with [] => _ | e :: _ => e end); [|discriminate].
+    inversion Hrd; subst. cbn [delivered]. rewrite app_length, firstn_length.
+    set (lim := Nat.min (cap b - length (win b)) (length (rest r))).
+    assert (N.to_nat (N.min (N.max n 1) (N.of_nat lim)) <= length (rest r)) by (unfold lim; lia).
+    lia.
+Qed.
